@@ -238,6 +238,7 @@ def run(ctx):
     cases = [(k, d) for k in sorted(ctxs) if k.startswith("class:")
              for d in ("%s volatile (** const a2)(double const *)" % k.split(":", 1)[1], "%s (*fp)(int)" % k.split(":", 1)[1])]
     cases += [(k, d) for k in sorted(ctxs) for d in ("int f(void *)", "int f(void)", "volatile int * volatile v", "const void * const * p",
+                                                      "int *constraint", "double constant", "long *volatile_count", "const char *constname", "int f(int unsigned_total, long structure)",
                                                       "int (*a)[3]", "const char *(*names)[4]", "double (*m)[2][5]", "int sum_rows(int (*a)[3], int n)")]
     for i in range(n):
         k = rng.choice(sorted(ctxs))
@@ -263,6 +264,14 @@ def run(ctx):
                 ctx.broken.append(("correspondence", "Decl.parse_statement", "scope=%s decl=%r impl=%s model=%s" % (k, d, a, m[:200])))
             continue
         ctx.hist("render:declaration")
+        # the name Shroud records is an identifier of the text (a whole token, not a piece of one)
+        try:
+            rn = a.get_name(use_attr=False)
+        except Exception:
+            rn = None
+        if rn and not re.search(r"(?<![A-Za-z0-9_])%s(?![A-Za-z0-9_])" % re.escape(rn), d):
+            ctx.violation("failing-input", {"what": "the name recorded for the declaration is not an identifier of its text (a token was split)",
+                                            "input": {"scope": k, "decl": d, "recorded_name": rn, "rendering": a.gen_decl()}})
         parts = m.split("|")
         itext = a.gen_decl()
         mtext = vlib.dec(parts[2]) if len(parts) > 2 and parts[0] == "OK" else "<%s>" % m[:80]
